@@ -165,6 +165,21 @@ def h_square_unique(ctx, n, m):
     ctx.claim('bounds', all(0 <= v < n for row in rows for v in row))
 
 
+def h_square_unique_retry(ctx, obj):
+    """unique=True through its retry path: the first batch contains too few
+    distinct rows, the repeated attempt enough (draws scripted)."""
+    Y, W = quasi_diag_tt(ctx, 2, 2)
+    # m = 2, m_fact = 1: first batch of 2 samples (2 draws each) gives (0,0) twice ->
+    # retry with m_fact = 2: 4 samples (0,0),(1,1),(0,0),(1,1)
+    script = [0, 0, 0, 0] + [0, 1, 0, 1, 0, 1, 0, 1]
+    g = _gen(ctx, 'retry', script=script)
+    I = teneva.sample_square(Y, 2, unique=True, seed=g, m_fact=1, max_rep=3)
+    rows = [tuple(int(x) for x in row) for row in I]
+    ctx.claim('shape', I.shape == (2, 2))
+    ctx.claim('distinct_rows', len(set(rows)) == 2)
+    ctx.claim('bounds', all(0 <= v < 2 for row in rows for v in row))
+
+
 def h_lhs(ctx, n, m, perm):
     """Latin hypercube: every index of a mode occurs floor(m/k) or ceil(m/k) times
     (all outcomes of the without-replacement draws forked)."""
@@ -230,6 +245,11 @@ def instances(tier):
     for tgt in multi_indices([2, 2]):
         out.append({'func': 'h_square_prob', 'params': {'n1': 2, 'n2': 2, 'r': 2, 'target': list(tgt)},
                     'opts': {'generic_divisors': True}})
+    for tgt in [(0, 1), (1, 0)]:
+        # over-ranked second core (rank 3 > mode size 2): economic RQ with a tall R
+        out.append({'func': 'h_square_prob', 'params': {'n1': 2, 'n2': 2, 'r': 3, 'target': list(tgt)},
+                    'opts': {'generic_divisors': True}})
+    out.append({'func': 'h_square_unique_retry', 'params': {'obj': True}, 'opts': {'symbolic_signs': False}})
     for d, n in ([(3, 2)] if quick else [(3, 2), (4, 2), (3, 3)]):
         for t in range(n):
             out.append({'func': 'h_square_quasi', 'params': {'d': d, 'n': n, 'target_i': t, 'unique': False},
